@@ -145,6 +145,7 @@ func c05Opts(seed uint64) progOpts {
 	if r.chance(1, 6) {
 		o.repeat, o.fatalActions = true, true
 	}
+	o.recDepth = r.chance(1, 4)
 	return o
 }
 
